@@ -435,7 +435,7 @@ def _keyfun(x: ast.AST, rowvars=()) -> Optional[str]:
     return ast.unparse(_norm.canon(y, rename=False)), (rows[0] if rows else None)
 
 
-def _init_unassigned(repo, fn: FunctionInfo, A: str):
+def _init_unassigned(repo, fn: FunctionInfo, A: str, _depth: int = 0):
     """every definition of the association array leaves all rows at -1 before
     any row is given a bucket: numpy.full(shape, -1) or zeros/empty followed by
     A[:] = -1 in the same block"""
@@ -443,6 +443,13 @@ def _init_unassigned(repo, fn: FunctionInfo, A: str):
     res = []
     for s in sorted((x for x in own_nodes(fn.node) if isinstance(x, ast.Assign) and len(x.targets) == 1 and src_of(x.targets[0]) == A), key=lambda x: x.lineno):
         t = ex.text(s.value, fn, s).replace(" ", "")
+        if _depth < 2 and isinstance(s.value, ast.Subscript) and isinstance(s.value.value, ast.Name) and s.value.value.id != A:
+            # ids[inverse]: rows take their value from a table; the table is what starts at -1
+            res += _init_unassigned(repo, fn, s.value.value.id, _depth + 1)
+            continue
+        if not t.startswith(("numpy.full(", "numpy.zeros(", "numpy.empty(", "numpy.ones(", "-numpy.ones(", "numpy.zeros_like(", "numpy.empty_like(", "numpy.full_like(")):
+            res.append((s, None))
+            continue
         full = t.startswith("numpy.full(") and (t.endswith(",-1)") or t.endswith(",-1.0)") or ",-1," in t or ",-1.0," in t or "fill_value=-1" in t)
         neg = t.startswith("-numpy.ones(")
         ok = full or neg
@@ -615,7 +622,14 @@ def check_e(ck, repo):
             if isinstance(v, ast.Name):
                 A = v.id
         res = _init_unassigned(repo, fn, A) if A else []
-        ck.verdict(len(res) >= 2 and all(ok for _, ok in res), "C08.e", fn, f"{fn.name}: {len(res)} allocations of the bucket ids", "rows start unassigned (-1) in both binner kinds", "association is not initialised to -1 in both branches: uncovered rows get a bucket id")
+        bad_ = [s_ for s_, ok in res if ok is False]
+        odd_ = [s_ for s_, ok in res if ok is None]
+        if bad_:
+            ck.violated("C08.e", fn, bad_[0], f"{src_of(bad_[0])[:70]}: the bucket ids do not start at -1: a row no bucket claims (a leaf or a cell unseen at training time) is answered by local model {src_of(bad_[0].value)[:20]}... instead of the fallback model")
+        elif odd_ or not res:
+            ck.unknown("C08.e", fn, odd_[0] if odd_ else f"{fn.name}: bucket ids", f"the bucket ids are not built by allocation and fill ({src_of(odd_[0])[:70] if odd_ else 'no definition found'}): whether uncovered rows get -1 is not decided")
+        else:
+            ck.holds("C08.e", fn, f"{fn.name}: {len(res)} allocations of the bucket ids", "rows start unassigned (-1) wherever the ids are allocated")
     bx = [t for _, t in defs_texts(repo, tb, "binner")] if any(isinstance(n, ast.Name) and n.id == "binner" for n in ast.walk(tb.node)) else ["self.binner_"]
     ck.verdict(bx == ["self.binner_"], "C08.e", tb, f"binner = {bx}", "predict routes with the fitted binner", "transform_bins does not use the fitted binner_")
 
